@@ -5,7 +5,7 @@
    _is_attribute_equality_join / _handle_attribute_equality_join / _translate_comparator_operand /
    _handle_contains_operator / OperatorMapper / DomainValueExtractor / translate_attribute /
    _walk_attribute_chain / _apply_relationship_join / translate_truth_value / JoinManager
-   (tree at 7ef093b: after all C07 fix: commits; pinned by pins/eqlsql.json).
+   (tree at dc46254: after all C07 fix: commits; pinned by pins/eqlsql.json).
    Kept behaviours outside the property: an ordering comparison or a relationship hop that meets None follows SQL
    (row dropped) where Python raises (C07-b2); related entities are compared by foreign key, i.e. by identity,
    not by the classes' __eq__ (C07-j). *)
@@ -113,6 +113,10 @@ Definition mismatch_lit (sc : schema) (c : Z) (chain : list Z) (v : val) : bool 
   | VInt _ => col_in (sc_texts sc) (chain_end sc c chain)
   | _ => false
   end.
+(* two columns of different kinds (text against number) *)
+Definition kinds_differ (sc : schema) (c1 : Z) (ch1 : list Z) (c2 : Z) (ch2 : list Z) : bool :=
+  (col_in (sc_nums sc) (chain_end sc c1 ch1) && col_in (sc_texts sc) (chain_end sc c2 ch2)) ||
+  (col_in (sc_texts sc) (chain_end sc c1 ch1) && col_in (sc_nums sc) (chain_end sc c2 ch2)).
 Definition attr_name : Z := 1.      (* harness: "name" *)
 Definition attr_id_ : Z := 2.       (* harness: "id_" *)
 
@@ -159,6 +163,14 @@ Section Translate.
     end.
   Definition lit_mismatch (x y : operand) : bool :=
     match y with OLit v => operand_mismatch x v | _ => false end.
+  Definition col_mismatch (x y : operand) : bool :=
+    match x, y with
+    | OAttr v1 ch1, OAttr v2 ch2 =>
+        match assoc v1 vars, assoc v2 vars with Some c1, Some c2 => kinds_differ sc c1 ch1 c2 ch2 | _, _ => false end
+    | _, _ => false
+    end.
+  (* mismatched(left, right) or mismatched(right, left) *)
+  Definition cmp_mismatch (l r : operand) : bool := lit_mismatch l r || lit_mismatch r l || col_mismatch l r.
   (* membership(column, values): a None element is searched with IS NULL *)
   Definition is_null (c : val) : bool := match c with VNull => true | _ => false end.
   Definition mk_in (a : sexpr) (cs : list val) : spred :=
@@ -238,7 +250,7 @@ Section Translate.
         | ROk a st1 =>
             match toperand st1 r with
             | ROk b st2 =>
-                if lit_mismatch l r || lit_mismatch r l then RReject             (* text against number *)
+                if cmp_mismatch l r then RReject                                 (* text against number, literal or column *)
                 else if negb (eqne op) && (enum_col l || enum_col r) then RReject     (* Enum members have no order *)
                 else match mk_cmp op a b with Some p => ROk (Some p) st2 | None => RReject end
             | RReject => RReject | RCrash => RCrash | RUnmod => RUnmod
@@ -429,7 +441,11 @@ Definition operand_shape (sc : schema) (sel root : Z) (x : operand) : bool :=
   end.
 Definition none_lit (x : operand) : bool := match x with OLit VNull => true | _ => false end.
 Definition mismatch_op (sc : schema) (root : Z) (l r : operand) : bool :=
-  match l, r with OAttr _ ch, OLit v => mismatch_lit sc root ch v | _, _ => false end.
+  match l, r with
+  | OAttr _ ch, OLit v => mismatch_lit sc root ch v
+  | OAttr _ ch1, OAttr _ ch2 => kinds_differ sc root ch1 root ch2
+  | _, _ => false
+  end.
 Definition enum_op (sc : schema) (root : Z) (x : operand) : bool :=
   match x with OAttr _ ch => enum_end sc root ch | _ => false end.
 Fixpoint cond_shape (sc : schema) (sel root : Z) (c : cond) : bool :=
